@@ -1,8 +1,1182 @@
-(* Proofs_C28.v — lemmas and proofs for C28. *)
+(* Proofs_C28.v — lemmas and proofs for C28.
+   atomicity (from C18.FsLemmas.atomic_replace + the stale-temporary variant), idempotence,
+   order independence (sorting lemma), parse/render round trip. *)
 From Coq Require Import List NArith ZArith Bool Lia Permutation.
 Import ListNotations.
 From Verif Require Import Base.Val C18.Fs C18.FsLemmas C28.Model_C28 C28.Spec_C28.
 Open Scope N_scope.
+
+(* ================================================================ the write: atomicity *)
+Lemma concat_chunks_fuel : forall fuel n s, (0 < n)%nat -> (length s <= fuel)%nat ->
+  concat (chunks_fuel fuel n s) = s.
+Proof.
+  induction fuel as [|f IH]; intros n s Hn Hl; destruct s as [|x s']; cbn [chunks_fuel concat]; try reflexivity.
+  - cbn in Hl. lia.
+  - rewrite IH; [apply firstn_skipn|exact Hn|].
+    rewrite skipn_length. cbn [length] in *. lia.
+Qed.
+
+Lemma concat_chunks_of n s : concat (chunks_of n s) = s.
+Proof.
+  destruct n as [|n]; cbn [chunks_of].
+  - destruct s; cbn; [reflexivity|now rewrite app_nil_r].
+  - apply concat_chunks_fuel; lia.
+Qed.
+
+Lemma TMP_neq_P : TMP <> P.
+Proof. unfold TMP, P. intro H. discriminate H. Qed.
+
+(* crash prefixes of the tail  write..; rename  from a staged state *)
+Lemma staged_tail_atomic s s1 tmp p chunks k :
+  tmp <> p -> staged s tmp s1 ->
+  let ops := appends tmp chunks ++ [Rename tmp p] in
+  let sk := run (firstn k ops) s1 in
+  (forall q, q <> p -> q <> tmp -> lookup sk q = lookup s q) /\
+  (lookup sk p = lookup s p \/
+   exists s2, run_opt (appends tmp chunks) s1 = Some s2 /\ lookup sk p = lookup s2 tmp /\
+              (length ops <= k)%nat).
+Proof.
+  intros Hne Hs1 ops sk. subst ops sk.
+  pose proof (staged_middle s tmp chunks [] (Forall_nil _)) as Hmid. rewrite app_nil_r in Hmid.
+  set (mid := appends tmp chunks) in *.
+  destruct (Nat.le_gt_cases k (length mid)) as [Hk|Hk].
+  - rewrite firstn_app. replace (k - length mid)%nat with 0%nat by lia. cbn [firstn]. rewrite app_nil_r.
+    pose proof (run_prefix_inv _ _ Hmid s1 k Hs1) as [Hfr _].
+    split; [intros q _ Hq; now apply Hfr|left; apply Hfr; congruence].
+  - rewrite firstn_all2 by (rewrite app_length; cbn; lia).
+    rewrite run_app. destruct (run_opt mid s1) as [s2|] eqn:Hm.
+    + pose proof (run_inv _ _ Hmid s1 Hs1) as Hs2. rewrite (run_opt_run _ _ _ Hm) in Hs2.
+      cbn [run]. destruct (apply_op s2 (Rename tmp p)) as [s3|] eqn:Hr.
+      * destruct (staged_rename _ _ _ _ _ Hne Hs2 Hr) as [Hfr Hp].
+        split; [exact Hfr|]. right. exists s2. repeat split; auto.
+        rewrite app_length. cbn [length]. lia.
+      * destruct Hs2 as [Hfr _]. split; [intros q _ Hq; now apply Hfr|left; apply Hfr; congruence].
+    + pose proof (run_inv _ _ Hmid s1 Hs1) as [Hfr _].
+      split; [intros q _ Hq; now apply Hfr|left; apply Hfr; congruence].
+Qed.
+
+(* a stale temporary with a private inode: truncating it stages an empty file *)
+Lemma staged_truncate s tmp d m u g t i s1 :
+  lookup s tmp = Some (File d m u g t i) ->
+  (forall q n, q <> tmp -> lookup s q = Some n -> ino_of n <> Some i) ->
+  apply_op s (Truncate tmp) = Some s1 ->
+  staged s tmp s1 /\ lookup s1 tmp = Some (File [] m u g NOW i).
+Proof.
+  intros Hl Hpriv H. cbn in H. rewrite Hl in H. unfold update in H. rewrite Hl in H. cbn in H.
+  injection H as <-.
+  assert (Hoth : forall q, q <> tmp -> lookup (on_ino i truncate_data s) q = lookup s q).
+  { intros q Hq. rewrite lookup_on_ino. destruct (lookup s q) as [n|] eqn:Hn; [|reflexivity].
+    destruct (ino_of n) as [j|] eqn:Hj; [|reflexivity].
+    destruct (N.eqb j i) eqn:E; [|reflexivity].
+    apply N.eqb_eq in E; subst j. exfalso. eapply Hpriv; eauto. }
+  assert (Ht : lookup (on_ino i truncate_data s) tmp = Some (File [] m u g NOW i)).
+  { rewrite lookup_on_ino, Hl. cbn. now rewrite N.eqb_refl. }
+  split; [|exact Ht]. split; [exact Hoth|].
+  exists [], m, u, g, NOW, i. split; [exact Ht|].
+  intros q n Hq Hn. rewrite Hoth in Hn by exact Hq. eapply Hpriv; eauto.
+Qed.
+
+(* the temporary is absent, not a regular file (then open() fails and nothing happens), or a
+   regular file no other name is linked to *)
+Definition tmp_private (s : fs) : Prop :=
+  match lookup s TMP with
+  | Some (File _ _ _ _ _ i) => forall q n, q <> TMP -> lookup s q = Some n -> ino_of n <> Some i
+  | _ => True
+  end.
+
+Lemma appends_data s1 tmp chunks s2 m u g t i :
+  lookup s1 tmp = Some (File [] m u g t i) ->
+  run_opt (appends tmp chunks) s1 = Some s2 ->
+  exists m' u' g' t' i', lookup s2 tmp = Some (File (concat chunks) m' u' g' t' i').
+Proof.
+  intros Ht H. destruct (run_opt_appends_tmp _ _ _ _ _ _ _ _ _ _ Ht H) as [[-> ->]|H2].
+  - cbn. eauto 10.
+  - cbn in H2. eauto 10.
+Qed.
+
+Lemma file_data_of s p d m u g t i : lookup s p = Some (File d m u g t i) -> file_data s p = Some d.
+Proof. unfold file_data. now intros ->. Qed.
+
+Lemma write_ops_atomic s mode chunk data k :
+  tmp_private s ->
+  let ops := write_ops s mode chunk data in
+  let sk := run (firstn k ops) s in
+  (forall q, q <> P -> q <> TMP -> lookup sk q = lookup s q) /\
+  (lookup sk P = lookup s P \/ (file_data sk P = Some data /\ (length ops <= k)%nat)).
+Proof.
+  intros Hpriv ops sk. subst ops sk. unfold write_ops, open_tmp. unfold tmp_private in Hpriv.
+  destruct (lookup s TMP) as [[d m u g t i| | | | ]|] eqn:Hl.
+  2-6: (* fresh temporary (or a non-file in the way): the library lemma *)
+    (pose proof (atomic_replace s TMP P mode (chunks_of chunk data) [] k TMP_neq_P (Forall_nil _)) as [Hfr Hp];
+     unfold replace_ops in Hfr, Hp; cbn [app] in Hfr, Hp; split; [exact Hfr|];
+     destruct Hp as [Hp|(s2 & Hs2 & Hp & _ & Hk)]; [now left|right];
+     split; [|exact Hk];
+     pose proof (staged_complete _ _ _ _ _ _ (Forall_nil _) Hs2) as Hc;
+     unfold staged_node in Hc; cbn [fold_left] in Hc; rewrite concat_chunks_of in Hc;
+     unfold file_data; rewrite Hp, Hc; reflexivity).
+  (* stale temporary: truncated, then staged *)
+  destruct k as [|k]; [cbn; split; [reflexivity|now left]|].
+  cbn [firstn run]. destruct (apply_op s (Truncate TMP)) as [s1|] eqn:Ht; [|split; [reflexivity|now left]].
+  destruct (staged_truncate _ _ _ _ _ _ _ _ _ Hl Hpriv Ht) as [Hst Ht1].
+  destruct (staged_tail_atomic s s1 TMP P (chunks_of chunk data) k TMP_neq_P Hst) as [Hfr Hp].
+  split; [exact Hfr|]. destruct Hp as [Hp|(s2 & Hs2 & Hp & Hk)]; [now left|right].
+  destruct (appends_data _ _ _ _ _ _ _ _ _ Ht1 Hs2) as (m' & u' & g' & t' & i' & Hd).
+  rewrite concat_chunks_of in Hd. split.
+  - unfold file_data. rewrite Hp, Hd. reflexivity.
+  - cbn [length]. lia.
+Qed.
+
+Lemma create_lookup s p m s1 :
+  apply_op s (Create p m) = Some s1 -> lookup s1 p = Some (File [] m ME ME NOW (fresh_ino s)).
+Proof.
+  cbn. destruct (can_create s p); [|discriminate]. intro H; injection H as <-. apply lookup_set_same.
+Qed.
+
+(* the first call stages an empty private temporary *)
+Lemma open_staged s mode s1 :
+  tmp_private s -> apply_op s (open_tmp s mode) = Some s1 ->
+  staged s TMP s1 /\ exists m u g t i, lookup s1 TMP = Some (File [] m u g t i).
+Proof.
+  unfold tmp_private, open_tmp. intros Hpriv H.
+  destruct (lookup s TMP) as [[d m u g t i| | | | ]|] eqn:Hl.
+  2-6: (split; [now apply (staged_create _ _ _ _ H)|];
+        rewrite (create_lookup _ _ _ _ H); eauto 10).
+  destruct (staged_truncate _ _ _ _ _ _ _ _ _ Hl Hpriv H) as [Hst Ht1]. split; [exact Hst|eauto 10].
+Qed.
+
+Lemma write_ops_complete s mode chunk data s' :
+  tmp_private s -> run_opt (write_ops s mode chunk data) s = Some s' -> file_data s' P = Some data.
+Proof.
+  intros Hpriv H. unfold write_ops in H. cbn [run_opt] in H.
+  destruct (apply_op s (open_tmp s mode)) as [s1|] eqn:Ho; [|discriminate].
+  destruct (open_staged _ _ _ Hpriv Ho) as [Hst (m & u & g & t & i & Ht1)].
+  rewrite run_opt_app in H.
+  destruct (run_opt (appends TMP (chunks_of chunk data)) s1) as [s2|] eqn:Hm; [|discriminate].
+  cbn [run_opt] in H. destruct (apply_op s2 (Rename TMP P)) as [s3|] eqn:Hr; [|discriminate].
+  injection H as <-.
+  pose proof (staged_middle s TMP (chunks_of chunk data) [] (Forall_nil _)) as Hmid. rewrite app_nil_r in Hmid.
+  pose proof (run_inv _ _ Hmid s1 Hst) as Hs2. rewrite (run_opt_run _ _ _ Hm) in Hs2.
+  destruct (staged_rename _ _ _ _ _ TMP_neq_P Hs2 Hr) as [_ Hp].
+  destruct (appends_data _ _ _ _ _ _ _ _ _ Ht1 Hm) as (m' & u' & g' & t' & i' & Hd).
+  rewrite concat_chunks_of in Hd. unfold file_data. rewrite Hp, Hd. reflexivity.
+Qed.
+
+Lemma update_atomic_proof : forall i s wr ops k,
+  tmp_private s ->
+  update_ops i s = Ok (wr, ops) ->
+  let sk := run (firstn k ops) s in
+  (forall q, q <> P -> q <> TMP -> lookup sk q = lookup s q) /\
+  (lookup sk P = lookup s P \/
+   exists text, update_text (u_thin i) (u_scan i) (u_fetch i) = Ok (Some text) /\
+                file_data sk P = Some text /\ (length ops <= k)%nat).
+Proof.
+  intros i s wr ops k Hpriv H sk. subst sk. unfold update_ops, update_with in H.
+  destruct (update_text (u_thin i) (u_scan i) (u_fetch i)) as [[text|]|kind] eqn:Ht; try discriminate.
+  - assert (Hw : (forall q, q <> P -> q <> TMP ->
+                   lookup (run (firstn k (write_ops s (u_mode i) (u_chunk i) text)) s) q = lookup s q) /\
+                 (lookup (run (firstn k (write_ops s (u_mode i) (u_chunk i) text)) s) P = lookup s P \/
+                  exists text0, Ok (Some text) = Ok (Some text0) /\
+                    file_data (run (firstn k (write_ops s (u_mode i) (u_chunk i) text)) s) P = Some text0 /\
+                    (length (write_ops s (u_mode i) (u_chunk i) text) <= k)%nat)).
+    { destruct (write_ops_atomic s (u_mode i) (u_chunk i) text k Hpriv) as [Hfr Hp]. split; [exact Hfr|].
+      destruct Hp as [Hp|[Hp Hk]]; [now left|right; eauto]. }
+    destruct (file_data s P) as [old|] eqn:Ho.
+    + destruct (str_eqb (read_nl old) text); injection H as <- <-.
+      * rewrite firstn_nil. cbn. split; auto.
+      * exact Hw.
+    + injection H as <- <-. exact Hw.
+  - injection H as <- <-. rewrite firstn_nil. cbn. auto.
+Qed.
+
+Lemma update_eio_keeps_old_proof : forall i s wr ops k,
+  tmp_private s -> update_ops i s = Ok (wr, ops) -> (k < length ops)%nat ->
+  lookup (run (eio_ops ops k) s) P = lookup s P.
+Proof.
+  intros i s wr ops k Hpriv H Hk.
+  destruct (update_atomic_proof i s wr ops k Hpriv H) as [_ Hp].
+  assert (Hold : lookup (run (firstn k ops) s) P = lookup s P).
+  { destruct Hp as [Hp|(t & _ & _ & Hle)]; [exact Hp|lia]. }
+  unfold eio_ops. rewrite run_app.
+  destruct (run_opt (firstn k ops) s) as [s1|] eqn:Hr; [|exact Hold].
+  rewrite (run_opt_run _ _ _ Hr) in Hold.
+  destruct k as [|k]; [exact Hold|].
+  cbn [run]. destruct (apply_op s1 (Unlink TMP)) as [s2|] eqn:Hu; [|exact Hold].
+  rewrite <- Hold. eapply apply_op_frame; [exact Hu|].
+  cbn. intros [E|[]]. exact (TMP_neq_P E).
+Qed.
+
+Lemma update_completes_proof : forall i s ops s',
+  tmp_private s -> update_ops i s = Ok (true, ops) -> run_opt ops s = Some s' ->
+  exists text, update_text (u_thin i) (u_scan i) (u_fetch i) = Ok (Some text) /\ file_data s' P = Some text.
+Proof.
+  intros i s ops s' Hpriv H Hr. unfold update_ops, update_with in H.
+  destruct (update_text (u_thin i) (u_scan i) (u_fetch i)) as [[text|]|kind] eqn:Ht; try discriminate.
+  exists text. split; [reflexivity|].
+  destruct (file_data s P) as [old|] eqn:Ho.
+  - destruct (str_eqb (read_nl old) text); [discriminate|]. injection H as <-.
+    eapply write_ops_complete; eauto.
+  - injection H as <-. eapply write_ops_complete; eauto.
+Qed.
+
+(* ================================================================ idempotence *)
+Lemma read_nl_cons c r : c <> 13 -> read_nl (c :: r) = c :: read_nl r.
+Proof.
+  intro H. destruct c as [|p]; [reflexivity|].
+  repeat (destruct p as [p|p|]; try reflexivity).
+  exfalso. apply H. reflexivity.
+Qed.
+
+Lemma read_nl_id s : ~ In 13 s -> read_nl s = s.
+Proof.
+  induction s as [|c r IH]; intro H; [reflexivity|].
+  rewrite read_nl_cons by (intros ->; apply H; now left).
+  rewrite IH; [reflexivity|]. intro Hin. apply H. now right.
+Qed.
+
+Lemma idempotent_proof : forall i s wr ops s',
+  tmp_private s ->
+  update_ops i s = Ok (wr, ops) -> run_opt ops s = Some s' ->
+  (forall text, update_text (u_thin i) (u_scan i) (u_fetch i) = Ok (Some text) -> ~ In 13 text) ->
+  update_ops i s' = Ok (false, []).
+Proof.
+  intros i s wr ops s' Hpriv H Hr Hcr.
+  destruct wr.
+  - destruct (update_completes_proof i s ops s' Hpriv H Hr) as (text & Ht & Hd).
+    unfold update_ops, update_with. rewrite Ht, Hd, (read_nl_id text (Hcr _ Ht)), str_eqb_refl. reflexivity.
+  - assert (ops = []).
+    { unfold update_ops, update_with in H.
+      destruct (update_text (u_thin i) (u_scan i) (u_fetch i)) as [[text|]|kind]; try discriminate.
+      - destruct (file_data s P); [destruct (str_eqb _ _)|]; try discriminate H; now injection H as <-.
+      - now injection H as <-. }
+    subst ops. cbn in Hr. injection Hr as <-. exact H.
+Qed.
+
+(* the unrepaired write is not atomic: a crash right after open(path, "w") leaves an empty Manifest *)
+Definition old_fs : fs := mkfs (Some (s2l "DIST a 1 MD5 00000000000000000000000000000001
+"%bs)) None.
+Definition new_in : uin := Uin true [] [(s2l "a"%bs, [(SIZE, 2); (s2l "md5"%bs, 1)])] 420 0.
+Lemma inplace_not_atomic_refuted_proof :
+  exists i s wr ops k text,
+    tmp_private s /\ update_ops_inplace i s = Ok (wr, ops) /\
+    update_text (u_thin i) (u_scan i) (u_fetch i) = Ok (Some text) /\
+    lookup (run (firstn k ops) s) P <> lookup s P /\
+    file_data (run (firstn k ops) s) P <> Some text.
+Proof.
+  exists new_in, old_fs. eexists. eexists. exists 1%nat. eexists.
+  split; [exact I|]. split; [vm_compute; reflexivity|]. split; [vm_compute; reflexivity|].
+  split; vm_compute; discriminate.
+Qed.
+
+(* ================================================================ the order on strings *)
+Lemma str_ltb_asym a : forall b, str_ltb a b = true -> str_ltb b a = false.
+Proof.
+  induction a as [|x a IH]; intros [|y b] H; cbn in *; try discriminate; try reflexivity.
+  destruct (N.ltb_spec x y); destruct (N.ltb_spec y x); try lia; try reflexivity; try discriminate.
+  now apply IH.
+Qed.
+
+Lemma str_ltb_trans a : forall b c, str_ltb a b = true -> str_ltb b c = true -> str_ltb a c = true.
+Proof.
+  induction a as [|x a IH]; intros [|y b] [|z c] H1 H2; cbn in *; try discriminate; try reflexivity.
+  destruct (N.ltb_spec x y); destruct (N.ltb_spec y x); destruct (N.ltb_spec y z); destruct (N.ltb_spec z y);
+    destruct (N.ltb_spec x z); destruct (N.ltb_spec z x); try lia; try reflexivity; try discriminate.
+  eapply IH; eauto.
+Qed.
+
+Lemma str_ltb_total a : forall b, str_ltb a b = false -> str_ltb b a = false -> a = b.
+Proof.
+  induction a as [|x a IH]; intros [|y b] H1 H2; cbn in *; try discriminate; try reflexivity.
+  destruct (N.ltb_spec x y); destruct (N.ltb_spec y x); try lia; try discriminate.
+  assert (x = y) by lia. subst. f_equal. now apply IH.
+Qed.
+
+(* ================================================================ sorting a permutation *)
+Section SortPerm.
+  Context {A : Type} (key : A -> str).
+
+  Lemma insert_comm_lt x y l :
+    str_ltb (key x) (key y) = true -> insert key x (insert key y l) = insert key y (insert key x l).
+  Proof.
+    intro Hxy. pose proof (str_ltb_asym _ _ Hxy) as Hyx.
+    induction l as [|z l IH]; cbn [insert]; unfold str_leb.
+    - rewrite Hyx, Hxy. cbn. reflexivity.
+    - destruct (str_ltb (key z) (key y)) eqn:Hzy; cbn [negb].
+      + (* y goes after z *)
+        cbn [insert]. unfold str_leb.
+        destruct (str_ltb (key z) (key x)) eqn:Hzx; cbn [negb].
+        * cbn [insert]. unfold str_leb. rewrite Hzy. cbn [negb]. f_equal. exact IH.
+        * cbn [insert]. unfold str_leb. rewrite Hxy. cbn [negb]. cbn [insert]. unfold str_leb. rewrite Hzy. reflexivity.
+      + (* y before z; then x before z as well *)
+        assert (Hzx : str_ltb (key z) (key x) = false).
+        { destruct (str_ltb (key z) (key x)) eqn:E; [|reflexivity].
+          rewrite (str_ltb_trans _ _ _ E Hxy) in Hzy. discriminate. }
+        cbn [insert]. unfold str_leb. rewrite Hyx, Hzx. cbn [negb]. cbn [insert]. unfold str_leb.
+        rewrite Hxy, Hzy. reflexivity.
+  Qed.
+
+  Lemma insert_comm x y l : key x <> key y -> insert key x (insert key y l) = insert key y (insert key x l).
+  Proof.
+    intro H. destruct (str_ltb (key x) (key y)) eqn:E1.
+    - now apply insert_comm_lt.
+    - destruct (str_ltb (key y) (key x)) eqn:E2.
+      + symmetry. now apply insert_comm_lt.
+      + exfalso. apply H. now apply str_ltb_total.
+  Qed.
+
+  Lemma sort_by_perm l l' : Permutation l l' -> NoDup (map key l) -> sort_by key l = sort_by key l'.
+  Proof.
+    unfold sort_by.
+    induction 1 as [|x l l' Hp IH|x y l|l l' l'' Hp1 IH1 Hp2 IH2]; intro Hnd.
+    - reflexivity.
+    - cbn [fold_right]. cbn [map] in Hnd. inversion Hnd; subst. now rewrite IH.
+    - cbn [fold_right]. apply insert_comm. cbn in Hnd. inversion Hnd as [|? ? Hn _]; subst. intro E. apply Hn. left. now symmetry.
+    - rewrite IH1 by exact Hnd. apply IH2.
+      eapply Permutation_NoDup; [|exact Hnd]. now apply Permutation_map.
+  Qed.
+End SortPerm.
+
+(* ================================================================ the covered files *)
+Lemma dset_fresh {B} k (v : B) d : ~ In k (map fst d) -> dset k v d = d ++ [(k, v)].
+Proof.
+  induction d as [|[k' v'] d IH]; cbn; intro H; [reflexivity|].
+  destruct (str_eqb k k') eqn:E.
+  - apply str_eqb_eq in E. subst. exfalso. apply H. now left.
+  - rewrite IH; [reflexivity|]. intro Hin. apply H. now right.
+Qed.
+
+Lemma picks_acc f scan : forall acc,
+  NoDup (map fst (acc ++ covered f scan)) ->
+  fold_left (fun d o => match f (classify o) with Some n => dset n (s_cks o) d | None => d end) scan acc
+  = acc ++ covered f scan.
+Proof.
+  induction scan as [|o r IH]; intros acc Hnd; cbn [fold_left covered flat_map].
+  - now rewrite app_nil_r.
+  - fold (covered f r). destruct (f (classify o)) as [n|] eqn:E.
+    + cbn [app]. rewrite dset_fresh.
+      * rewrite IH; rewrite <- app_assoc; [reflexivity|].
+        unfold covered in Hnd. cbn [flat_map] in Hnd. rewrite E in Hnd. exact Hnd.
+      * unfold covered in Hnd. cbn [flat_map] in Hnd. rewrite E in Hnd. cbn [app] in Hnd.
+        rewrite map_app in Hnd. apply NoDup_remove_2 in Hnd. intro Hin. apply Hnd.
+        apply in_or_app. now left.
+    + cbn [app]. apply IH. unfold covered in Hnd. cbn [flat_map] in Hnd. now rewrite E in Hnd.
+Qed.
+
+Lemma picks_covered f scan : NoDup (map fst (covered f scan)) -> picks f scan = covered f scan.
+Proof. intro H. unfold picks. now rewrite picks_acc. Qed.
+
+(* names determine locations within a class *)
+Lemma starts_with_app p : forall s, starts_with p s = true -> s = p ++ skipn (length p) s.
+Proof.
+  induction p as [|x p IH]; intros [|y s] H; cbn in *; try discriminate; try reflexivity.
+  apply andb_true_iff in H as [H1 H2]. apply N.eqb_eq in H1. subst. f_equal. now apply IH.
+Qed.
+
+Definition prefix_of (f : cls -> option str) (pre : str) : Prop :=
+  forall o n, f (classify o) = Some n -> s_loc o = pre ++ n.
+
+Lemma top_level_loc loc : top_level loc = true -> loc = [47] ++ skipn 1 loc.
+Proof. destruct loc as [|c r]; cbn; [discriminate|]. destruct (N.eq_dec c 47) as [->|H]; [reflexivity|].
+  destruct c as [|p]; [discriminate|]. repeat (destruct p as [p|p|]; try discriminate). congruence. Qed.
+
+Lemma classify_cases o :
+  match classify o with
+  | CAux n => s_loc o = FILESDIR ++ n
+  | CEbuild n | CMisc n => s_loc o = [47] ++ n
+  | _ => True
+  end.
+Proof.
+  unfold classify. destruct (negb (s_reg o)); [exact I|]. destruct (excluded (s_loc o)); [exact I|].
+  destruct (starts_with FILESDIR (s_loc o)) eqn:E.
+  - now apply (starts_with_app FILESDIR).
+  - destruct (top_level (s_loc o)) eqn:T; [|exact I].
+    destruct (ends_with EBUILD_EXT (s_loc o)); now apply top_level_loc.
+Qed.
+
+Lemma prefix_aux : prefix_of aux_of FILESDIR.
+Proof. intros o n H. pose proof (classify_cases o) as C. destruct (classify o); cbn in H; try discriminate. now injection H as <-. Qed.
+Lemma prefix_ebuild : prefix_of ebuild_of [47].
+Proof. intros o n H. pose proof (classify_cases o) as C. destruct (classify o); cbn in H; try discriminate. now injection H as <-. Qed.
+Lemma prefix_misc : prefix_of misc_of [47].
+Proof. intros o n H. pose proof (classify_cases o) as C. destruct (classify o); cbn in H; try discriminate. now injection H as <-. Qed.
+
+Lemma covered_in f scan n : In n (map fst (covered f scan)) -> exists o, In o scan /\ f (classify o) = Some n.
+Proof.
+  unfold covered. rewrite in_map_iff. intros [[n' ck] [<- Hin]]. apply in_flat_map in Hin as [o [Ho Hin]].
+  exists o. split; [exact Ho|]. destruct (f (classify o)); [|destruct Hin].
+  destruct Hin as [E|[]]. now injection E as -> _.
+Qed.
+
+Lemma covered_nodup f pre scan : prefix_of f pre -> NoDup (map s_loc scan) -> NoDup (map fst (covered f scan)).
+Proof.
+  intros Hpre. induction scan as [|o r IH]; cbn; intro Hnd; [constructor|].
+  inversion Hnd as [|? ? Hn Hr]; subst. fold (covered f r).
+  destruct (f (classify o)) as [n|] eqn:E; cbn; [|now apply IH].
+  constructor; [|now apply IH]. intro Hin. apply covered_in in Hin as [o' [Ho' E']].
+  apply Hn. rewrite (Hpre _ _ E), <- (Hpre _ _ E'). now apply in_map.
+Qed.
+
+Lemma covered_perm f scan scan' : Permutation scan scan' -> Permutation (covered f scan) (covered f scan').
+Proof. apply Permutation_flat_map. Qed.
+
+Lemma existsb_perm {A} (p : A -> bool) l l' : Permutation l l' -> existsb p l = existsb p l'.
+Proof.
+  induction 1; cbn; try congruence.
+  destruct (p x), (p y); reflexivity.
+Qed.
+
+Lemma sorted_picks f pre scan scan' :
+  prefix_of f pre -> Permutation scan scan' -> NoDup (map s_loc scan) ->
+  sort_by fst (picks f scan) = sort_by fst (picks f scan').
+Proof.
+  intros Hpre Hp Hnd.
+  assert (Hnd' : NoDup (map s_loc scan')) by (eapply Permutation_NoDup; [|exact Hnd]; now apply Permutation_map).
+  rewrite !picks_covered by (eapply covered_nodup; eauto).
+  apply sort_by_perm; [now apply covered_perm|eapply covered_nodup; eauto].
+Qed.
+
+Lemma section_sorted ty nm l l' : sort_by fst l = sort_by fst l' -> section ty nm l = section ty nm l'.
+Proof. unfold section. now intros ->. Qed.
+
+(* the text does not depend on the listing order nor on the order of the distfiles *)
+Lemma order_independent_proof : forall thin scan scan' fetch fetch',
+  Permutation scan scan' -> NoDup (map s_loc scan) ->
+  Permutation fetch fetch' -> NoDup (map fst fetch) ->
+  update_text thin scan fetch = update_text thin scan' fetch'.
+Proof.
+  intros thin scan scan' fetch fetch' Hs Hns Hf Hnf.
+  assert (Hd : sort_by fst fetch = sort_by fst fetch') by (now apply sort_by_perm).
+  assert (Hb : has_bad scan = has_bad scan') by (apply existsb_perm; exact Hs).
+  assert (Hm : manifest_text (picks aux_of scan) fetch (picks ebuild_of scan) (picks misc_of scan)
+             = manifest_text (picks aux_of scan') fetch' (picks ebuild_of scan') (picks misc_of scan')).
+  { unfold manifest_text.
+    rewrite (section_sorted T_DIST basename _ _ Hd).
+    rewrite (section_sorted T_AUX (fun n => n) _ _ (sorted_picks _ _ _ _ prefix_aux Hs Hns)).
+    rewrite (section_sorted T_EBUILD (fun n => n) _ _ (sorted_picks _ _ _ _ prefix_ebuild Hs Hns)).
+    rewrite (section_sorted T_MISC (fun n => n) _ _ (sorted_picks _ _ _ _ prefix_misc Hs Hns)).
+    reflexivity. }
+  assert (Hm' : manifest_text [] fetch [] [] = manifest_text [] fetch' [] []).
+  { unfold manifest_text. now rewrite (section_sorted T_DIST basename _ _ Hd). }
+  unfold update_text. rewrite Hb, Hm, Hm'.
+  destruct fetch as [|e1 f1], fetch' as [|e2 f2]; try reflexivity.
+  - apply Permutation_nil in Hf. discriminate.
+  - apply Permutation_sym, Permutation_nil in Hf. discriminate.
+Qed.
+
+(* ================================================================ parse (render m) = m *)
+
+(* ================================================================ numbers *)
+(* the digit characters, by enumeration *)
+Definition digit_facts (b d : N) : bool :=
+  match digit_val b (digit_char d) with Some v => v =? d | None => false end
+  && negb (digit_char d =? 95) && negb (is_space (digit_char d))
+  && negb (digit_char d =? 120) && negb (digit_char d =? 88)
+  && negb (digit_char d =? 43) && negb (digit_char d =? 45)
+  && negb (digit_char d =? 10) && negb (digit_char d =? 13).
+Lemma digit_facts_all b d : (b = 10 \/ b = 16) -> d < b -> digit_facts b d = true.
+Proof.
+  intros Hb Hd.
+  assert (Hin : In d (map N.of_nat (seq 0 16))).
+  { apply in_map_iff. exists (N.to_nat d). split; [apply N2Nat.id|]. apply in_seq. lia. }
+  assert (Hall : forallb (fun d => (negb (d <? b)) || digit_facts b d) (map N.of_nat (seq 0 16)) = true)
+    by (destruct Hb as [-> | ->]; vm_compute; reflexivity).
+  rewrite forallb_forall in Hall. specialize (Hall d Hin).
+  apply N.ltb_lt in Hd. rewrite Hd in Hall. exact Hall.
+Qed.
+
+Definition value (b : N) (ds : list N) (acc : N) : N := fold_left (fun a d => a * b + d) ds acc.
+
+Lemma digits_val_digits b : (b = 10 \/ b = 16) -> forall ds acc nd,
+  Forall (fun d => d < b) ds -> (ds <> [] \/ nd = false) ->
+  digits_val b acc nd (map digit_char ds) = Some (value b ds acc).
+Proof.
+  intros Hb. induction ds as [|d ds IH]; intros acc nd Hall Hne; cbn.
+  - destruct Hne as [Hne| ->]; [congruence|reflexivity].
+  - inversion Hall as [|? ? Hd Hr]; subst.
+    pose proof (digit_facts_all b d Hb Hd) as F. unfold digit_facts in F.
+    repeat (apply andb_true_iff in F as [F ?]).
+    destruct (digit_char d =? 95); [discriminate|].
+    destruct (digit_val b (digit_char d)) as [v|]; [|discriminate].
+    apply N.eqb_eq in F. subst v. apply IH; [exact Hr|now right].
+Qed.
+
+(* little-endian digit lists *)
+Fixpoint lval (b : N) (ds : list N) : N :=
+  match ds with [] => 0 | d :: r => lval b r * b + d end.
+Lemma value_rev b ds : value b (rev ds) 0 = lval b ds.
+Proof.
+  unfold value. rewrite <- (fold_left_rev_right (fun d a => a * b + d)). rewrite rev_involutive.
+  induction ds; cbn; congruence.
+Qed.
+
+Lemma digits_lsb_lval b : 2 <= b -> forall fuel n, n < 2 ^ N.of_nat fuel -> lval b (digits_lsb b fuel n) = n.
+Proof.
+  intros Hb. induction fuel as [|f IH]; intros n Hn.
+  - cbn in *. assert (n = 0) by lia. now subst.
+  - cbn [digits_lsb]. destruct (N.eqb_spec n 0) as [->|Hn0]; [reflexivity|].
+    cbn [lval]. rewrite IH.
+    + rewrite N.mul_comm. symmetry. apply N.div_mod'.
+    + apply N.div_lt_upper_bound; [lia|].
+      rewrite Nat2N.inj_succ, N.pow_succ_r' in Hn.
+      assert (2 * 2 ^ N.of_nat f <= b * 2 ^ N.of_nat f) by (apply N.mul_le_mono_r; exact Hb). lia.
+Qed.
+
+Lemma digits_lsb_lt b : 0 < b -> forall fuel n, Forall (fun d => d < b) (digits_lsb b fuel n).
+Proof.
+  intros Hb. induction fuel as [|f IH]; intros n; cbn; [constructor|].
+  destruct (n =? 0); [constructor|]. constructor; [apply N.mod_lt; lia|apply IH].
+Qed.
+
+Lemma digits_lsb_nonempty b fuel n : n <> 0 -> fuel <> O -> digits_lsb b fuel n <> [].
+Proof. intros Hn Hf. destruct fuel; [congruence|]. cbn. destruct (N.eqb_spec n 0); congruence. Qed.
+
+Lemma size_fuel n : n < 2 ^ N.of_nat (N.to_nat (N.size n)).
+Proof. rewrite N2Nat.id. apply N.size_gt. Qed.
+
+Lemma py_int_nosign b c r : c <> 43 -> c <> 45 ->
+  py_int b (c :: r) =
+  match digits_val b 0 true (if b =? 16 then strip_prefix16 (c :: r) else c :: r) with
+  | Some n => Some (Z.of_N n) | None => None end.
+Proof.
+  intros H1 H2. unfold py_int. destruct c as [|p]; [reflexivity|].
+  repeat (destruct p as [p|p|]; try reflexivity); congruence.
+Qed.
+
+Lemma strip_prefix16_id c r : Forall (fun x => x <> 120 /\ x <> 88) r -> strip_prefix16 (c :: r) = c :: r.
+Proof.
+  intro H. destruct r as [|x r]; unfold strip_prefix16.
+  - destruct c as [|p]; [reflexivity|]. repeat (destruct p as [p|p|]; try reflexivity).
+  - inversion H as [|? ? [Hx1 Hx2] _]; subst.
+    apply N.eqb_neq in Hx1, Hx2.
+    destruct c as [|p]; [reflexivity|].
+    repeat (destruct p as [p|p|]; try reflexivity); rewrite Hx1, Hx2; reflexivity.
+Qed.
+
+Lemma digit_chars_facts b ds : (b = 10 \/ b = 16) -> Forall (fun d => d < b) ds ->
+  Forall (fun c => c <> 120 /\ c <> 88 /\ c <> 43 /\ c <> 45 /\ is_space c = false) (map digit_char ds).
+Proof.
+  intros Hb H. induction H as [|d ds Hd _ IH]; cbn; constructor; [|exact IH].
+  pose proof (digit_facts_all b d Hb Hd) as F. unfold digit_facts in F.
+  repeat (apply andb_true_iff in F as [F ?]).
+  repeat match goal with H : negb (_ =? _) = true |- _ => apply negb_true_iff, N.eqb_neq in H end.
+  repeat match goal with H : negb _ = true |- _ => apply negb_true_iff in H end.
+  repeat split; assumption.
+Qed.
+
+(* int(ds rendered in base b) *)
+Lemma py_int_digits b ds : (b = 10 \/ b = 16) -> ds <> [] -> Forall (fun d => d < b) ds ->
+  py_int b (map digit_char ds) = Some (Z.of_N (value b ds 0)).
+Proof.
+  intros Hb Hne Hall. pose proof (digit_chars_facts b ds Hb Hall) as F.
+  destruct ds as [|d ds]; [congruence|]. cbn [map] in *.
+  inversion F as [|? ? (_ & _ & F3 & F4 & _) Fr]; subst.
+  rewrite py_int_nosign by assumption.
+  assert (Hs : (if b =? 16 then strip_prefix16 (digit_char d :: map digit_char ds) else digit_char d :: map digit_char ds)
+               = map digit_char (d :: ds)).
+  { destruct (b =? 16); [|reflexivity]. apply strip_prefix16_id.
+    eapply Forall_impl; [|exact Fr]. cbn. tauto. }
+  rewrite Hs, (digits_val_digits b Hb (d :: ds) 0 true Hall) by (left; discriminate). reflexivity.
+Qed.
+
+Lemma py_int_dec n : py_int 10 (dec n) = Some (Z.of_N n).
+Proof.
+  unfold dec, to_base. destruct (N.eqb_spec n 0) as [->|Hn]; [reflexivity|].
+  set (ds := digits_lsb 10 (N.to_nat (N.size n)) n).
+  assert (Hf : N.to_nat (N.size n) <> O).
+  { destruct n as [|p]; [congruence|]. cbn. pose proof (Pos2Nat.is_pos (Pos.size p)). lia. }
+  rewrite py_int_digits.
+  - rewrite value_rev. unfold ds. rewrite digits_lsb_lval; [reflexivity|lia|apply size_fuel].
+  - now left.
+  - intro E. apply (f_equal (@rev N)) in E. rewrite rev_involutive in E. cbn in E.
+    eapply digits_lsb_nonempty; eauto.
+  - apply Forall_rev. apply digits_lsb_lt. lia.
+Qed.
+
+(* hex *)
+Fixpoint bval (l : list bool) : N := match l with [] => 0 | b :: r => 2 * bval r + b2n b end.
+Lemma bval_pos_bits p : bval (pos_bits p) = Npos p.
+Proof. induction p as [p IH|p IH|]; cbn [pos_bits bval b2n]; try rewrite IH; lia. Qed.
+
+Lemma nibbles_lval : forall l, lval 16 (nibbles l) = bval l.
+Proof.
+  fix IH 1. intros [|b0 [|b1 [|b2 [|b3 r]]]]; cbn [nibbles lval bval].
+  - reflexivity.
+  - lia.
+  - lia.
+  - lia.
+  - rewrite (IH r). lia.
+Qed.
+
+Lemma nibbles_lt : forall l, Forall (fun d => d < 16) (nibbles l).
+Proof.
+  fix IH 1. intros [|b0 [|b1 [|b2 [|b3 r]]]]; cbn [nibbles]; repeat constructor;
+    try (destruct b0; try destruct b1; try destruct b2; try destruct b3; cbn; lia).
+  apply IH.
+Qed.
+
+Lemma nibbles_nonempty l : l <> [] -> nibbles l <> [].
+Proof. destruct l as [|b0 [|b1 [|b2 [|b3 r]]]]; cbn; congruence. Qed.
+
+Lemma pos_bits_nonempty p : pos_bits p <> [].
+Proof. destruct p; cbn; congruence. Qed.
+
+Definition hex_digits (n : N) : list N :=
+  match n with N0 => [0] | Npos p => rev (nibbles (pos_bits p)) end.
+Lemma hex_as_digits n : hex n = map digit_char (hex_digits n).
+Proof. destruct n; reflexivity. Qed.
+Lemma hex_digits_ok n : hex_digits n <> [] /\ Forall (fun d => d < 16) (hex_digits n) /\ value 16 (hex_digits n) 0 = n.
+Proof.
+  destruct n as [|p]; cbn [hex_digits].
+  - repeat split; [discriminate|repeat constructor; lia].
+  - repeat split.
+    + intro E. apply (f_equal (@rev N)) in E. rewrite rev_involutive in E. cbn in E.
+      eapply nibbles_nonempty; [apply pos_bits_nonempty|exact E].
+    + apply Forall_rev, nibbles_lt.
+    + rewrite value_rev, nibbles_lval. apply bval_pos_bits.
+Qed.
+
+Lemma value_zeros k ds : value 16 (repeat 0 k ++ ds) 0 = value 16 ds 0.
+Proof. unfold value. rewrite fold_left_app. f_equal. induction k; cbn; [reflexivity|exact IHk]. Qed.
+
+Lemma rjust_as_digits w n : rjust0 w (hex n) = map digit_char (repeat 0 (w - length (hex n)) ++ hex_digits n).
+Proof.
+  unfold rjust0. rewrite map_app, hex_as_digits. f_equal.
+  induction (w - length (map digit_char (hex_digits n)))%nat; cbn; congruence.
+Qed.
+
+Lemma py_int_hex w n : py_int 16 (rjust0 w (hex n)) = Some (Z.of_N n).
+Proof.
+  destruct (hex_digits_ok n) as (Hne & Hlt & Hv).
+  rewrite rjust_as_digits, py_int_digits.
+  - now rewrite value_zeros, Hv.
+  - now right.
+  - destruct (repeat 0 (w - length (hex n))); cbn; [exact Hne|discriminate].
+  - apply Forall_app. split; [|exact Hlt]. apply Forall_forall. intros x Hx. apply repeat_spec in Hx. lia.
+Qed.
+
+
+(* ================================================================ tokens and lines *)
+Definition nospace (t : str) : bool := forallb (fun c => negb (is_space c)) t.
+Lemma name_ok_spec t : name_ok t = true <-> t <> [] /\ nospace t = true.
+Proof.
+  destruct t as [|c t]; cbn.
+  - split; [discriminate|intros [H _]; congruence].
+  - split; [intro H; split; [discriminate|exact H]|intros [_ H]; exact H].
+Qed.
+
+Lemma sw_tok t : forall cur rest, nospace t = true ->
+  split_ws_aux cur (t ++ rest) = split_ws_aux (rev t ++ cur) rest.
+Proof.
+  induction t as [|c t IH]; intros cur rest H; [reflexivity|].
+  cbn in H. apply andb_true_iff in H as [Hc Ht]. apply negb_true_iff in Hc.
+  cbn [app split_ws_aux rev]. rewrite Hc, IH by exact Ht. now rewrite <- app_assoc.
+Qed.
+
+Definition jtail (l : list str) : str := concat (map (cons 32) l).
+
+Lemma jtail_cons t r : jtail (t :: r) = 32 :: t ++ jtail r.
+Proof. reflexivity. Qed.
+
+Lemma sw_tail toks : forall cur, cur <> [] -> Forall (fun t => name_ok t = true) toks ->
+  split_ws_aux cur (jtail toks) = rev cur :: toks.
+Proof.
+  induction toks as [|t r IH]; intros cur Hc Hall.
+  - unfold jtail. cbn [map concat split_ws_aux]. destruct cur; [congruence|reflexivity].
+  - inversion Hall as [|? ? Ht Hr]; subst. apply name_ok_spec in Ht as [Hne Hns].
+    rewrite jtail_cons.
+    cbn [split_ws_aux]. replace (is_space 32) with true by reflexivity.
+    destruct cur as [|c0 cur]; [congruence|].
+    rewrite sw_tok by exact Hns. rewrite app_nil_r, IH; [now rewrite rev_involutive| |exact Hr].
+    intro E. apply (f_equal (@rev N)) in E. rewrite rev_involutive in E. cbn in E. congruence.
+Qed.
+
+Lemma split_line t0 toks : name_ok t0 = true -> Forall (fun t => name_ok t = true) toks ->
+  split_ws (t0 ++ jtail toks) = t0 :: toks.
+Proof.
+  intros H0 Hall. apply name_ok_spec in H0 as [Hne Hns]. unfold split_ws.
+  rewrite sw_tok by exact Hns. rewrite app_nil_r, sw_tail; [now rewrite rev_involutive| |exact Hall].
+  intro E. apply (f_equal (@rev N)) in E. rewrite rev_involutive in E. cbn in E. congruence.
+Qed.
+
+Definition not_nl (c : N) : bool := negb ((c =? 10) || (c =? 13)).
+Lemma lines_line l : forall cur rest, forallb not_nl l = true ->
+  lines_aux cur (l ++ 10 :: rest) = (rev cur ++ l) :: lines_aux [] rest.
+Proof.
+  induction l as [|c l IH]; intros cur rest H.
+  - cbn. now rewrite app_nil_r.
+  - cbn in H. apply andb_true_iff in H as [Hc Hl]. unfold not_nl in Hc. apply negb_true_iff in Hc.
+    cbn [app lines_aux]. rewrite Hc, IH by exact Hl. cbn [rev]. now rewrite <- app_assoc.
+Qed.
+
+Lemma nospace_not_nl c : is_space c = false -> not_nl c = true.
+Proof.
+  intro H. unfold not_nl. destruct (N.eqb_spec c 10) as [->|_]; [discriminate H|].
+  destruct (N.eqb_spec c 13) as [->|_]; [discriminate H|]. reflexivity.
+Qed.
+Lemma tok_no_nl t : nospace t = true -> forallb not_nl t = true.
+Proof.
+  unfold nospace. rewrite !forallb_forall. intros H c Hc. apply nospace_not_nl.
+  specialize (H c Hc). now apply negb_true_iff in H.
+Qed.
+Lemma jtail_no_nl toks : Forall (fun t => name_ok t = true) toks -> forallb not_nl (jtail toks) = true.
+Proof.
+  induction 1 as [|t r Ht _ IH]; [reflexivity|].
+  rewrite jtail_cons. cbn [forallb].
+  rewrite forallb_app, IH. apply name_ok_spec in Ht as [_ Ht]. now rewrite (tok_no_nl _ Ht).
+Qed.
+
+(* ================================================================ one line *)
+Definition chf_toks (l : chks) : list str :=
+  flat_map (fun e => match chf_width (fst e) with
+                     | Some w => [upper (fst e); rjust0 w (hex (snd e))]
+                     | None => [] end) l.
+Definition kn (e : str * N) : Prop := known (fst e) = true.
+
+Lemma jtail_app a b : jtail (a ++ b) = jtail a ++ jtail b.
+Proof. unfold jtail. now rewrite map_app, concat_app. Qed.
+
+Lemma render_chfs_ok l : Forall kn l -> render_chfs l = Ok (jtail (chf_toks l)).
+Proof.
+  induction 1 as [|[c v] r Hk _ IH]; [reflexivity|].
+  unfold kn, known in Hk. cbn [fst] in Hk. cbn [render_chfs chf_toks flat_map fst snd].
+  destruct (chf_width c) as [w|]; [|discriminate]. rewrite IH. fold (chf_toks r).
+  cbn [app]. rewrite !jtail_cons. reflexivity.
+Qed.
+
+Definition chf_fact (e : str * nat) : bool :=
+  name_ok (upper (fst e)) && str_eqb (lower (upper (fst e))) (fst e) && negb (str_eqb (fst e) SIZE).
+Lemma table_facts : forallb chf_fact chf_table = true.
+Proof. vm_compute. reflexivity. Qed.
+Lemma assoc_in {B} k (l : list (str * B)) v : assoc k l = Some v -> In (k, v) l.
+Proof.
+  induction l as [|[k' v'] l IH]; cbn; [discriminate|].
+  destruct (str_eqb k k') eqn:E; intro H.
+  - apply str_eqb_eq in E. subst. injection H as ->. now left.
+  - right. now apply IH.
+Qed.
+Lemma known_facts c w : chf_width c = Some w ->
+  name_ok (upper c) = true /\ lower (upper c) = c /\ str_eqb c SIZE = false.
+Proof.
+  intro H. apply assoc_in in H. pose proof table_facts as F. rewrite forallb_forall in F.
+  specialize (F _ H). unfold chf_fact in F. cbn [fst] in F.
+  apply andb_true_iff in F as [F F3]. apply andb_true_iff in F as [F1 F2].
+  apply str_eqb_eq in F2. apply negb_true_iff in F3. auto.
+Qed.
+
+Lemma name_ok_digits b ds : (b = 10 \/ b = 16) -> ds <> [] -> Forall (fun d => d < b) ds ->
+  name_ok (map digit_char ds) = true.
+Proof.
+  intros Hb Hne Hall. apply name_ok_spec. split; [destruct ds; [congruence|discriminate]|].
+  pose proof (digit_chars_facts b ds Hb Hall) as F. unfold nospace. apply forallb_forall.
+  intros c Hc. rewrite Forall_forall in F. destruct (F c Hc) as (_ & _ & _ & _ & Hs). now rewrite Hs.
+Qed.
+
+Lemma name_ok_rjust w n : name_ok (rjust0 w (hex n)) = true.
+Proof.
+  destruct (hex_digits_ok n) as (Hne & Hlt & _). rewrite rjust_as_digits.
+  apply (name_ok_digits 16); [now right| |].
+  - destruct (repeat 0 (w - length (hex n))); cbn; [exact Hne|discriminate].
+  - apply Forall_app. split; [|exact Hlt]. apply Forall_forall. intros x Hx. apply repeat_spec in Hx. lia.
+Qed.
+
+Lemma name_ok_dec n : name_ok (dec n) = true.
+Proof.
+  unfold dec, to_base. destruct (N.eqb_spec n 0) as [->|Hn]; [reflexivity|].
+  apply (name_ok_digits 10); [now left| |].
+  - intro E. apply (f_equal (@rev N)) in E. rewrite rev_involutive in E. cbn in E.
+    eapply digits_lsb_nonempty; [exact Hn| |exact E].
+    destruct n as [|p]; [congruence|]. cbn. pose proof (Pos2Nat.is_pos (Pos.size p)). lia.
+  - apply Forall_rev. apply digits_lsb_lt. lia.
+Qed.
+
+Lemma chf_toks_ok l : Forall kn l -> Forall (fun t => name_ok t = true) (chf_toks l).
+Proof.
+  induction 1 as [|[c v] r Hk _ IH]; [constructor|].
+  unfold kn, known in Hk. cbn [fst] in Hk. cbn [chf_toks flat_map fst snd].
+  destruct (chf_width c) as [w|] eqn:E; [|discriminate].
+  destruct (known_facts c w E) as (H1 & _ & _).
+  cbn [app]. constructor; [exact H1|]. constructor; [apply name_ok_rjust|exact IH].
+Qed.
+
+Lemma chf_toks_even l : Forall kn l -> Nat.even (length (chf_toks l)) = true.
+Proof.
+  induction 1 as [|[c v] r Hk _ IH]; [reflexivity|].
+  unfold kn, known in Hk. cbn [fst] in Hk. cbn [chf_toks flat_map fst snd].
+  destruct (chf_width c) as [w|]; [|discriminate]. cbn [app length]. exact IH.
+Qed.
+
+Definition zc (e : str * N) : str * Z := (fst e, Z.of_N (snd e)).
+
+Lemma conv_pairs_ok l : forall acc, Forall kn l -> NoDup (map fst l) ->
+  (forall c, In c (map fst l) -> ~ In c (map fst acc)) ->
+  conv_pairs (chf_toks l) acc = Some (acc ++ map zc l).
+Proof.
+  induction l as [|[c v] r IH]; intros acc Hk Hnd Hfresh.
+  - cbn. now rewrite app_nil_r.
+  - inversion Hk as [|? ? Hc Hr]; subst. unfold kn, known in Hc. cbn [fst] in Hc.
+    cbn [chf_toks flat_map fst snd]. destruct (chf_width c) as [w|] eqn:E; [|discriminate].
+    destruct (known_facts c w E) as (_ & H2 & H3). fold (chf_toks r).
+    cbn [app conv_pairs]. rewrite H2, H3, py_int_hex.
+    cbn [map] in Hnd. inversion Hnd as [|? ? Hn Hnr]; subst.
+    rewrite dset_fresh by (apply Hfresh; now left).
+    rewrite IH; [|exact Hr|exact Hnr|].
+    + rewrite <- app_assoc. reflexivity.
+    + intros c' Hc' Hin. rewrite map_app in Hin. apply in_app_or in Hin as [Hin|Hin].
+      * eapply Hfresh; [right; exact Hc'|exact Hin].
+      * cbn in Hin. destruct Hin as [<-|[]]. exact (Hn Hc').
+Qed.
+
+(* facts about one entry drawn from chks_ok *)
+Lemma mem_In x l : mem x l = true <-> In x l.
+Proof.
+  unfold mem. rewrite existsb_exists. split.
+  - intros [y [Hy E]]. apply str_eqb_eq in E. now subst.
+  - intro H. exists x. split; [exact H|apply str_eqb_refl].
+Qed.
+Lemma nodupb_NoDup l : nodupb l = true -> NoDup l.
+Proof.
+  induction l as [|x r IH]; cbn; intro H; constructor.
+  - apply andb_true_iff in H as [H _]. apply negb_true_iff in H. intro Hin. apply mem_In in Hin. congruence.
+  - apply andb_true_iff in H as [_ H]. now apply IH.
+Qed.
+
+Lemma insert_perm {A} (key : A -> str) x l : Permutation (insert key x l) (x :: l).
+Proof.
+  induction l as [|y l IH]; cbn; [reflexivity|].
+  destruct (str_leb (key x) (key y)); [reflexivity|].
+  rewrite IH. apply perm_swap.
+Qed.
+Lemma sort_by_permutation {A} (key : A -> str) l : Permutation (sort_by key l) l.
+Proof. induction l as [|x l IH]; cbn; [reflexivity|]. rewrite insert_perm. now constructor. Qed.
+
+Definition sorted_chfs (ck : chks) : chks := sort_by fst (filter not_size ck).
+Lemma sorted_chfs_facts ck : chks_ok ck = true ->
+  (exists sz, assoc SIZE ck = Some sz) /\ Forall kn (sorted_chfs ck) /\ NoDup (map fst (sorted_chfs ck)) /\
+  (forall c, In c (map fst (sorted_chfs ck)) -> c <> SIZE).
+Proof.
+  unfold chks_ok. intro H. apply andb_true_iff in H as [H H3]. apply andb_true_iff in H as [H1 H2].
+  assert (Hperm : Permutation (sorted_chfs ck) (filter not_size ck)) by apply sort_by_permutation.
+  split; [|split; [|split]].
+  - unfold has_key in H1. destruct (assoc SIZE ck) as [sz|]; [eauto|discriminate].
+  - eapply Permutation_Forall; [symmetry; exact Hperm|]. apply Forall_forall. intros e He.
+    apply filter_In in He as [He Hs]. rewrite forallb_forall in H2. specialize (H2 e He).
+    unfold not_size in Hs. apply negb_true_iff in Hs. rewrite Hs in H2. exact H2.
+  - eapply Permutation_NoDup; [symmetry; apply Permutation_map; exact Hperm|].
+    apply nodupb_NoDup in H3. clear -H3. induction ck as [|e ck IH]; cbn; [constructor|].
+    cbn in H3. inversion H3 as [|? ? Hn Hr]; subst. destruct (not_size e); [|now apply IH].
+    cbn. constructor; [|now apply IH]. intro Hin. apply Hn. apply in_map_iff in Hin as [e' [E He']].
+    apply filter_In in He' as [He' _]. rewrite <- E. now apply in_map.
+  - intros c Hc. apply in_map_iff in Hc as [e [<- He]]. eapply Permutation_in in He; [|exact Hperm].
+    apply filter_In in He as [_ Hs]. unfold not_size in Hs. apply negb_true_iff in Hs.
+    intro E. rewrite E, str_eqb_refl in Hs. discriminate.
+Qed.
+
+Definition line_toks (name : str) (ck : chks) : list str :=
+  name :: dec (size_of ck) :: chf_toks (sorted_chfs ck).
+
+Lemma manifest_line_ok ty name ck : chks_ok ck = true ->
+  manifest_line ty name ck = Ok ((upper ty ++ jtail (line_toks name ck)) ++ [10]).
+Proof.
+  intro H. destruct (sorted_chfs_facts ck H) as ([sz Hsz] & Hk & _ & _).
+  unfold manifest_line, line_toks, size_of. rewrite Hsz. fold (sorted_chfs ck).
+  rewrite (render_chfs_ok _ Hk). f_equal.
+  rewrite !jtail_cons. repeat (rewrite <- ?app_assoc; cbn [app]; try reflexivity).
+Qed.
+
+Lemma has_key_app {B} n (d : list (str * B)) k v : has_key n (d ++ [(k, v)]) = has_key n d || str_eqb n k.
+Proof.
+  unfold has_key. induction d as [|[k' v'] d IH]; cbn.
+  - destruct (str_eqb n k); reflexivity.
+  - destruct (str_eqb n k'); [reflexivity|exact IH].
+Qed.
+
+Lemma parse_entry_ok d ty name ck : name_ok name = true -> chks_ok ck = true -> has_key name d = false ->
+  parse_entry d (ty :: line_toks name ck) = Some (d ++ [(name, canon_chks ck)]).
+Proof.
+  intros Hn Hc Hfresh. destruct (sorted_chfs_facts ck Hc) as (_ & Hk & Hnd & Hns).
+  unfold line_toks, parse_entry. rewrite (chf_toks_even _ Hk), Hfresh, py_int_dec.
+  rewrite conv_pairs_ok; [reflexivity|exact Hk|exact Hnd|].
+  intros c Hin [E|[]]. cbn in E. exact (Hns c Hin (eq_sym E)).
+Qed.
+
+(* ================================================================ one section *)
+Record sel := Sel { s_ty : str; s_get : pm -> list pentry; s_set : pm -> list pentry -> pm }.
+Definition sel_ok (S : sel) : Prop :=
+  (forall m toks, parse_line m (s_ty S :: toks)
+                  = option_map (s_set S m) (parse_entry (s_get S m) (s_ty S :: toks))) /\
+  (forall m d, s_get S (s_set S m d) = d) /\
+  (forall m d d', s_set S (s_set S m d) d' = s_set S m d') /\
+  (forall m, s_set S m (s_get S m) = m) /\
+  upper (s_ty S) = s_ty S /\ name_ok (s_ty S) = true.
+
+Definition sel_dist := Sel T_DIST p_dist (fun m d => Pm d (p_aux m) (p_ebuild m) (p_misc m)).
+Definition sel_aux := Sel T_AUX p_aux (fun m d => Pm (p_dist m) d (p_ebuild m) (p_misc m)).
+Definition sel_ebuild := Sel T_EBUILD p_ebuild (fun m d => Pm (p_dist m) (p_aux m) d (p_misc m)).
+Definition sel_misc := Sel T_MISC p_misc (fun m d => Pm (p_dist m) (p_aux m) (p_ebuild m) d).
+
+Ltac sel_tac := repeat split; try reflexivity; try (intros [? ? ? ?]; reflexivity).
+Lemma sel_dist_ok : sel_ok sel_dist. Proof. sel_tac. Qed.
+Lemma sel_aux_ok : sel_ok sel_aux. Proof. sel_tac. Qed.
+Lemma sel_ebuild_ok : sel_ok sel_ebuild. Proof. sel_tac. Qed.
+Lemma sel_misc_ok : sel_ok sel_misc. Proof. sel_tac. Qed.
+
+Definition efact (e : entry) : Prop := name_ok (fst e) = true /\ chks_ok (snd e) = true.
+Definition canon_e (e : entry) : pentry := (fst e, canon_chks (snd e)).
+
+Lemma section_parse (S : sel) (Hok : sel_ok S) : forall L,
+  Forall efact L -> NoDup (map fst L) ->
+  exists t, concat_res (map (fun e => manifest_line (s_ty S) (fst e) (snd e)) L) = Ok t /\
+    forall rest m, (forall n, In n (map fst L) -> has_key n (s_get S m) = false) ->
+      parse_lines m (lines_aux [] (t ++ rest))
+      = parse_lines (s_set S m (s_get S m ++ map canon_e L)) (lines_aux [] rest).
+Proof.
+  destruct Hok as (Hpl & Hgs & Hss & Hsg & Hup & Hty).
+  induction L as [|[name ck] L IH]; intros Hall Hnd.
+  - exists []. split; [reflexivity|]. intros rest m _. cbn [map app]. now rewrite app_nil_r, Hsg.
+  - inversion Hall as [|? ? [Hn Hc] Hr]; subst. cbn [fst snd] in Hn, Hc.
+    cbn [map] in Hnd. inversion Hnd as [|? ? Hnin Hndr]; subst.
+    destruct (IH Hr Hndr) as (t' & Ht' & Hparse).
+    cbn [map concat_res fst snd]. rewrite (manifest_line_ok _ _ _ Hc), Ht', Hup.
+    eexists. split; [reflexivity|]. intros rest m Hfresh.
+    assert (Htoks : Forall (fun t => name_ok t = true) (line_toks name ck)).
+    { destruct (sorted_chfs_facts ck Hc) as (_ & Hk & _ & _).
+      unfold line_toks. constructor; [exact Hn|]. constructor; [apply name_ok_dec|now apply chf_toks_ok]. }
+    assert (Hshape : forall (A t1 r1 : str), ((A ++ [10]) ++ t1) ++ r1 = A ++ 10 :: (t1 ++ r1))
+      by (intros; rewrite <- !app_assoc; reflexivity).
+    rewrite Hshape.
+    rewrite lines_line.
+    2:{ rewrite forallb_app, (jtail_no_nl _ Htoks). apply name_ok_spec in Hty as [_ Hty].
+        now rewrite (tok_no_nl _ Hty). }
+    cbn [rev app parse_lines]. rewrite (split_line _ _ Hty Htoks), Hpl.
+    rewrite parse_entry_ok; [|exact Hn|exact Hc|apply Hfresh; now left].
+    cbn [option_map]. rewrite Hparse.
+    + rewrite Hgs, Hss, <- app_assoc. reflexivity.
+    + intros n Hin. rewrite Hgs, has_key_app, (Hfresh n (or_intror Hin)). cbn [orb].
+      destruct (str_eqb n name) eqn:E; [|reflexivity]. apply str_eqb_eq in E. subst. contradiction.
+Qed.
+
+
+Lemma entries_ok_facts l : entries_ok l = true -> Forall efact l /\ NoDup (map fst l).
+Proof.
+  unfold entries_ok. intro H. apply andb_true_iff in H as [H1 H2]. split; [|now apply nodupb_NoDup].
+  apply Forall_forall. intros e He. rewrite forallb_forall in H1. specialize (H1 e He).
+  apply andb_true_iff in H1. exact H1.
+Qed.
+
+Lemma sorted_facts (l : list entry) : Forall efact l -> NoDup (map fst l) ->
+  Forall efact (sort_by fst l) /\ NoDup (map fst (sort_by fst l)).
+Proof.
+  intros H1 H2. pose proof (sort_by_permutation fst l) as Hp. split.
+  - eapply Permutation_Forall; [symmetry; exact Hp|exact H1].
+  - eapply Permutation_NoDup; [symmetry; apply Permutation_map; exact Hp|exact H2].
+Qed.
+
+Lemma canon_sec_map l : canon_sec l = map canon_e (sort_by fst l).
+Proof. reflexivity. Qed.
+
+Lemma section_id_parse (S : sel) (Hok : sel_ok S) l : entries_ok l = true ->
+  exists t, section (s_ty S) (fun n => n) l = Ok t /\
+    forall rest m, s_get S m = [] ->
+      parse_lines m (lines_aux [] (t ++ rest)) = parse_lines (s_set S m (canon_sec l)) (lines_aux [] rest).
+Proof.
+  intro H. destruct (entries_ok_facts l H) as [H1 H2]. destruct (sorted_facts l H1 H2) as [H3 H4].
+  destruct (section_parse S Hok (sort_by fst l) H3 H4) as (t & Ht & Hp).
+  exists t. split; [exact Ht|]. intros rest m Hg. rewrite Hp.
+  - rewrite Hg. reflexivity.
+  - intros n _. now rewrite Hg.
+Qed.
+
+Lemma split_on_noslash s : forall cur, existsb (N.eqb 47) s = false -> split_on_aux 47 cur s = [rev cur ++ s].
+Proof.
+  induction s as [|x s IH]; intros cur H; cbn [split_on_aux].
+  - now rewrite app_nil_r.
+  - cbn [existsb] in H. apply orb_false_iff in H as [Hx Hs]. rewrite N.eqb_sym in Hx. rewrite Hx, IH by exact Hs.
+    cbn [rev]. now rewrite <- app_assoc.
+Qed.
+Lemma basename_noslash n : no_slash n = true -> basename n = n.
+Proof.
+  unfold no_slash, basename, split_on. intro H. apply negb_true_iff in H. now rewrite split_on_noslash.
+Qed.
+
+Lemma section_basename ty l : forallb (fun e => no_slash (fst e)) l = true ->
+  section ty basename l = section ty (fun n => n) l.
+Proof.
+  intro H. unfold section. f_equal. apply map_ext_in. intros e He.
+  rewrite basename_noslash; [reflexivity|].
+  rewrite forallb_forall in H. apply H. eapply Permutation_in; [apply sort_by_permutation|exact He].
+Qed.
+
+Lemma text_parse a d e m :
+  entries_ok a = true -> entries_ok d = true -> entries_ok e = true -> entries_ok m = true ->
+  forallb (fun x => no_slash (fst x)) d = true ->
+  exists t, manifest_text a d e m = Ok t /\
+            parse_text t = Some (Pm (canon_sec d) (canon_sec a) (canon_sec e) (canon_sec m)).
+Proof.
+  intros Ha Hd He Hm Hns.
+  destruct (section_id_parse sel_aux sel_aux_ok a Ha) as (ta & Hta & Pa).
+  destruct (section_id_parse sel_dist sel_dist_ok d Hd) as (td & Htd & Pd).
+  destruct (section_id_parse sel_ebuild sel_ebuild_ok e He) as (te & Hte & Pe).
+  destruct (section_id_parse sel_misc sel_misc_ok m Hm) as (tm & Htm & Pm_).
+  cbn [s_ty sel_aux sel_dist sel_ebuild sel_misc] in Hta, Htd, Hte, Htm.
+  exists (ta ++ td ++ te ++ tm). split.
+  - unfold manifest_text. rewrite (section_basename _ _ Hns), Hta, Htd, Hte, Htm. reflexivity.
+  - unfold parse_text, lines. rewrite Pa by reflexivity. rewrite Pd by reflexivity.
+    rewrite Pe by reflexivity. rewrite <- (app_nil_r tm). rewrite Pm_ by reflexivity.
+    reflexivity.
+Qed.
+
+Lemma parse_render_proof : forall thin scan fetch,
+  wf_update thin scan fetch = true ->
+  match update_text thin scan fetch with
+  | Ok (Some t) => parse_text t = Some (expected_pm thin scan fetch)
+  | Ok None => thin = true /\ fetch = []
+  | Fail _ => False
+  end.
+Proof.
+  intros thin scan fetch H. unfold wf_update in H.
+  apply andb_true_iff in H as [H Hrest]. apply andb_true_iff in H as [Hf Hns].
+  unfold update_text, expected_pm. destruct thin.
+  - cbn [andb]. destruct fetch as [|f0 fr]; [split; reflexivity|].
+    cbn [negb andb].
+    destruct (text_parse [] (f0 :: fr) [] [] eq_refl Hf eq_refl eq_refl Hns) as (t & Ht & Hp).
+    rewrite Ht. exact Hp.
+  - cbn [orb] in Hrest. cbn [andb negb].
+    apply andb_true_iff in Hrest as [Hrest Hm]. apply andb_true_iff in Hrest as [Hrest He].
+    apply andb_true_iff in Hrest as [Hrest Ha]. apply andb_true_iff in Hrest as [Hb Hl].
+    apply negb_true_iff in Hb. rewrite Hb.
+    rewrite !picks_covered by (apply entries_ok_facts; assumption).
+    destruct (text_parse _ _ _ _ Ha Hf He Hm Hns) as (t & Ht & Hp).
+    rewrite Ht. exact Hp.
+Qed.
+
+(* ================================================================ the parsed content is exactly the input *)
+Lemma canon_sec_exact_proof l : Permutation (canon_sec l) (map (fun e => (fst e, canon_chks (snd e))) l).
+Proof. unfold canon_sec. apply Permutation_map. apply sort_by_permutation. Qed.
+
+Lemma canon_chks_exact_proof ck :
+  Permutation (canon_chks ck)
+              ((SIZE, Z.of_N (size_of ck)) :: map (fun e => (fst e, Z.of_N (snd e))) (filter not_size ck)).
+Proof. unfold canon_chks. constructor. apply Permutation_map. apply sort_by_permutation. Qed.
+
+
+(* ================================================================ no carriage return in a generated text *)
+Lemma not_nl_no_cr l : forallb not_nl l = true -> ~ In 13 l.
+Proof. intros H Hin. rewrite forallb_forall in H. specialize (H 13 Hin). discriminate. Qed.
+
+Lemma concat_res_no_cr rs : Forall (fun r => forall t, r = Ok t -> ~ In 13 t) rs ->
+  forall t, concat_res rs = Ok t -> ~ In 13 t.
+Proof.
+  induction 1 as [|r rs Hr _ IH]; cbn; intros t Ht.
+  - injection Ht as <-. intros [].
+  - destruct r as [s|k]; [|discriminate]. destruct (concat_res rs) as [t'|k]; [|discriminate].
+    injection Ht as <-. intro Hin. apply in_app_or in Hin as [Hin|Hin]; [exact (Hr _ eq_refl Hin)|exact (IH _ eq_refl Hin)].
+Qed.
+
+Lemma section_no_cr (S : sel) (Hok : sel_ok S) l t : entries_ok l = true ->
+  section (s_ty S) (fun n => n) l = Ok t -> ~ In 13 t.
+Proof.
+  intros H. destruct Hok as (_ & _ & _ & _ & Hup & Hty).
+  destruct (entries_ok_facts l H) as [H1 H2]. destruct (sorted_facts l H1 H2) as [H3 _].
+  unfold section. apply concat_res_no_cr. apply Forall_forall. intros r Hr.
+  apply in_map_iff in Hr as [[name ck] [<- He]]. rewrite Forall_forall in H3. destruct (H3 _ He) as [Hn Hc].
+  cbn [fst snd] in *. rewrite (manifest_line_ok _ _ _ Hc), Hup. intros t0 E. injection E as <-.
+  assert (Htoks : Forall (fun t => name_ok t = true) (line_toks name ck)).
+  { destruct (sorted_chfs_facts ck Hc) as (_ & Hk & _ & _).
+    unfold line_toks. constructor; [exact Hn|]. constructor; [apply name_ok_dec|now apply chf_toks_ok]. }
+  intro Hin. apply in_app_or in Hin as [Hin|[Hin|[]]]; [|discriminate].
+  revert Hin. apply not_nl_no_cr. rewrite forallb_app, (jtail_no_nl _ Htoks).
+  apply name_ok_spec in Hty as [_ Hty]. now rewrite (tok_no_nl _ Hty).
+Qed.
+
+Lemma text_no_cr a d e m t :
+  entries_ok a = true -> entries_ok d = true -> entries_ok e = true -> entries_ok m = true ->
+  forallb (fun x => no_slash (fst x)) d = true ->
+  manifest_text a d e m = Ok t -> ~ In 13 t.
+Proof.
+  intros Ha Hd He Hm Hns. unfold manifest_text. rewrite (section_basename _ _ Hns).
+  pose proof (section_no_cr sel_aux sel_aux_ok a) as Na.
+  pose proof (section_no_cr sel_dist sel_dist_ok d) as Nd.
+  pose proof (section_no_cr sel_ebuild sel_ebuild_ok e) as Ne.
+  pose proof (section_no_cr sel_misc sel_misc_ok m) as Nm.
+  cbn [s_ty sel_aux sel_dist sel_ebuild sel_misc] in Na, Nd, Ne, Nm.
+  destruct (section T_AUX _ a) as [ta|]; [|discriminate].
+  destruct (section T_DIST _ d) as [td|]; [|discriminate].
+  destruct (section T_EBUILD _ e) as [te|]; [|discriminate].
+  destruct (section T_MISC _ m) as [tm|]; [|discriminate].
+  cbn. intro E. injection E as <-. intro Hin.
+  apply in_app_or in Hin as [Hin|Hin]; [exact (Na _ Ha eq_refl Hin)|].
+  apply in_app_or in Hin as [Hin|Hin]; [exact (Nd _ Hd eq_refl Hin)|].
+  apply in_app_or in Hin as [Hin|Hin]; [exact (Ne _ He eq_refl Hin)|exact (Nm _ Hm eq_refl Hin)].
+Qed.
+
+Lemma wf_text_no_cr thin scan fetch t : wf_update thin scan fetch = true ->
+  update_text thin scan fetch = Ok (Some t) -> ~ In 13 t.
+Proof.
+  intros H. unfold wf_update in H.
+  apply andb_true_iff in H as [H Hrest]. apply andb_true_iff in H as [Hf Hns].
+  unfold update_text. destruct thin.
+  - cbn [andb negb]. destruct fetch as [|f0 fr]; [discriminate|].
+    destruct (manifest_text [] (f0 :: fr) [] []) as [t0|] eqn:E; [|discriminate].
+    intro E'. injection E' as <-. eapply (text_no_cr [] (f0 :: fr) [] []); eauto.
+  - cbn [orb] in Hrest. cbn [andb negb].
+    apply andb_true_iff in Hrest as [Hrest Hm]. apply andb_true_iff in Hrest as [Hrest He].
+    apply andb_true_iff in Hrest as [Hrest Ha]. apply andb_true_iff in Hrest as [Hb Hl].
+    apply negb_true_iff in Hb. rewrite Hb.
+    rewrite !picks_covered by (apply entries_ok_facts; assumption).
+    destruct (manifest_text _ fetch _ _) as [t0|] eqn:E; [|discriminate].
+    intro E'. injection E' as <-. eapply text_no_cr; [exact Ha|exact Hf|exact He|exact Hm|exact Hns|exact E].
+Qed.
+
+(* regenerating right after a completed update writes nothing (well-formed inputs) *)
+Lemma idempotent_wf_proof : forall i s wr ops s',
+  tmp_private s -> wf_update (u_thin i) (u_scan i) (u_fetch i) = true ->
+  update_ops i s = Ok (wr, ops) -> run_opt ops s = Some s' ->
+  update_ops i s' = Ok (false, []).
+Proof.
+  intros i s wr ops s' Hp Hwf H Hr. eapply idempotent_proof; eauto.
+  intros text Ht. eapply wf_text_no_cr; eauto.
+Qed.
+
+(* ================================================================ the hypotheses are satisfiable *)
+Definition ex_ck (sz h : N) : chks := [(s2l "md5"%bs, h); (SIZE, sz); (s2l "sha1"%bs, h + 1)].
+Definition ex_scan : list scanned :=
+  [Scanned (s2l "/pkg-1.ebuild"%bs) true (ex_ck 3 5); Scanned (s2l "/files"%bs) false [];
+   Scanned (s2l "/metadata.xml"%bs) true (ex_ck 40 6); Scanned (s2l "/files/b.patch"%bs) true (ex_ck 7 255);
+   Scanned (s2l "/files/a.patch"%bs) true (ex_ck 8 4096); Scanned (s2l "/CVS/Entries"%bs) true (ex_ck 1 1);
+   Scanned (s2l "/Manifest"%bs) true (ex_ck 1 2); Scanned (s2l "/.update.Manifest"%bs) true (ex_ck 1 3)].
+Definition ex_fetch : list entry := [(s2l "z-1.tar"%bs, ex_ck 1000 77); (s2l "a-1.tar"%bs, ex_ck 2000 78)].
+Definition ex_in : uin := Uin false ex_scan ex_fetch 420 40.
+
+Example ex_wf : wf_update false ex_scan ex_fetch = true.
+Proof. vm_compute. reflexivity. Qed.
+Example ex_text : exists t, update_text false ex_scan ex_fetch = Ok (Some t) /\ (length t > 400)%nat /\
+  parse_text t = Some (expected_pm false ex_scan ex_fetch) /\
+  map fst (p_aux (expected_pm false ex_scan ex_fetch)) = [s2l "a.patch"%bs; s2l "b.patch"%bs] /\
+  map fst (p_misc (expected_pm false ex_scan ex_fetch)) = [s2l "metadata.xml"%bs].
+Proof. eexists. split; [vm_compute; reflexivity|]. split; [vm_compute; lia|]. split; vm_compute; auto. Qed.
+Example ex_perm : update_text false (rev ex_scan) (rev ex_fetch) = update_text false ex_scan ex_fetch.
+Proof. vm_compute. reflexivity. Qed.
+
+Lemma mkfs_private old stale : tmp_private (mkfs old stale).
+Proof.
+  unfold tmp_private, mkfs. destruct old as [o|], stale as [st|]; cbn [app]; cbn [lookup].
+  - destruct (path_eq_dec TMP P) as [E|_]; [exfalso; exact (TMP_neq_P E)|].
+    destruct (path_eq_dec TMP TMP) as [_|N]; [|congruence]. unfold mkfile.
+    intros q n Hq Hl. destruct (path_eq_dec q P); [injection Hl as <-; cbn; congruence|].
+    destruct (path_eq_dec q TMP); [contradiction|discriminate].
+  - destruct (path_eq_dec TMP P) as [E|_]; [exfalso; exact (TMP_neq_P E)|exact I].
+  - destruct (path_eq_dec TMP TMP) as [_|N]; [|congruence]. unfold mkfile.
+    intros q n Hq Hl. destruct (path_eq_dec q TMP); [contradiction|discriminate].
+  - exact I.
+Qed.
+
+(* a stale Manifest and a stale temporary: the update issues open(truncate) + 2 writes + rename, all
+   succeed, the new text is in place and the temporary is gone *)
+Example ex_update :
+  let s := mkfs (Some (s2l "DIST old 1 MD5 00000000000000000000000000000001"%bs)) (Some (s2l "junk"%bs)) in
+  exists ops s' t, update_ops (Uin true [] ex_fetch 420 150) s = Ok (true, ops) /\ length ops = 4%nat /\
+    run_opt ops s = Some s' /\ update_text true [] ex_fetch = Ok (Some t) /\
+    file_data s' P = Some t /\ file_data s' TMP = None.
+Proof. do 3 eexists. repeat split; vm_compute; reflexivity. Qed.
 
 (* up to date => nothing is written *)
 Lemma up_to_date_no_ops_proof : forall i s old t,
